@@ -8,6 +8,12 @@ VARIABLE k
 RoundTripFails(c) ==
   {t \in {"nodes", "edges", "sites", "mutations", "individuals", "populations", "migrations", "sequence_length"} :
      ~ CASE t = "sequence_length" -> c.b.L = c.a.L
+         \* load_text sorts: migrations with equal times may come back in another order (any order of ties is a valid table), so
+         \* they are compared as multisets of whole rows, and must come back ordered by time
+         [] t = "migrations" -> /\ Len(c.a[t]) = Len(c.b[t])
+                                /\ \A i \in 1..Len(c.a[t]) : Cardinality({j \in 1..Len(c.a[t]) : c.a[t][j] = c.a[t][i]})
+                                                                  = Cardinality({j \in 1..Len(c.b[t]) : c.b[t][j] = c.a[t][i]})
+                                /\ \A i \in 1..(Len(c.b[t]) - 1) : c.b[t][i].time <= c.b[t][i + 1].time
          [] OTHER -> c.a[t] = c.b[t]}
 LayoutFails(c) ==
   IF c.raised = 1 THEN {"parser_raised:" \o c.error}
